@@ -117,7 +117,7 @@ func c05(c *Ctx) {
 				continue
 			}
 			for _, e := range v.Succ {
-				for _, f := range cfgx.ExpandCond(e.Cond, e.Val) {
+				for _, f := range e.Facts() {
 					x, isNil, ok := nilCompare(info, f)
 					if !ok || !isNil {
 						continue
